@@ -235,7 +235,8 @@ func linearComplexity(a []bool, M int) int {
 				P[i] = 0
 			}
 			for j := 0; j < M; j++ {
-				if B_[j] == 1 {
+				// x^(N-m)·B(x) 中次数不小于 M 的项不会再被使用，舍弃以防越界
+				if B_[j] == 1 && j+N_-m < M {
 					P[j+N_-m] = 1
 				}
 			}
